@@ -4,13 +4,15 @@ set -uo pipefail
 P=$1; shift
 cd /repo
 if ! git diff --quiet; then echo "/repo has uncommitted changes, refusing"; exit 3; fi
-git apply --3way "$P" 2>/tmp/mutant_apply.err || git apply "$P" || { echo "MUTANT $P: patch does not apply"; cat /tmp/mutant_apply.err; git checkout -- .; exit 3; }
-git reset -q   # --3way stages; keep it in the working tree only
+if ! git apply "$P" 2>/tmp/mutant_apply.err; then
+  if ! git apply --3way "$P" 2>>/tmp/mutant_apply.err; then echo "MUTANT $P: patch does not apply"; cat /tmp/mutant_apply.err; git reset -q --hard HEAD; exit 3; fi
+  git reset -q   # --3way stages; keep it in the working tree only
+fi
 cd /verif
 for c in "$@"; do
   out=$(VERIF_SEED=${VERIF_SEED:-1} ./check $c quick 2>&1); code=$?
   echo "MUTANT $(basename $(dirname $P)) check=$c exit=$code $(echo "$out" | grep -m1 '^VIOLATION' )"
   echo "$out" | grep -A2 '^VIOLATION' | sed -n 2,3p
 done
-git -C /repo checkout -- .
+git -C /repo reset -q --hard HEAD
 git -C /repo status --short | grep -v '^??' | head
